@@ -152,6 +152,15 @@ func (e *Encoder) writeMap(data interface{}) (int, error) {
 	return count, nil
 }
 
+// mapEntryValue packs a decoded map key or element; a null stands for the zero value of the
+// expected type (nil pointer, "", zero time), it does not end the map.
+func mapEntryValue(in interface{}, typ reflect.Type) reflect.Value {
+	if in == nil {
+		return reflect.Zero(typ)
+	}
+	return EnsureRawValue(in)
+}
+
 //readTypedMap read typed map
 func (d *Decoder) readTypedMap() (interface{}, error) {
 	typ, err := d.readType()
@@ -184,17 +193,12 @@ func (d *Decoder) readTypedMap() (interface{}, error) {
 			return nil, err
 		}
 
-		//nil map
-		if key == nil {
-			break
-		}
-
 		value, err := d.ReadData()
 		if err != nil {
 			return nil, err
 		}
 		if mType.Kind() == reflect.Map {
-			mValue.SetMapIndex(EnsureRawValue(key), EnsureRawValue(value))
+			mValue.SetMapIndex(mapEntryValue(key, mType.Key()), mapEntryValue(value, mType.Elem()))
 		} else {
 			fieldName, ok := key.(string)
 			if !ok {
@@ -225,11 +229,6 @@ func (d *Decoder) readUntypedMap() (interface{}, error) {
 				break
 			}
 			return nil, err
-		}
-
-		// nil map
-		if key == nil {
-			break
 		}
 
 		value, err := EnsureInterface(d.ReadData())
@@ -280,15 +279,11 @@ func (d *Decoder) readMap(dest reflect.Value) error {
 			}
 		}
 
-		if key == nil {
-			break
-		}
-
 		vl, err := d.ReadData()
 		if err != nil {
 			return err
 		}
-		mPtrValue.Elem().SetMapIndex(EnsureRawValue(key), EnsureRawValue(vl))
+		mPtrValue.Elem().SetMapIndex(mapEntryValue(key, mapTyp.Key()), mapEntryValue(vl, mapTyp.Elem()))
 	}
 	SetValue(dest, mPtrValue)
 	return nil
